@@ -465,10 +465,47 @@ class Emitter:
         if not ps: ps = 'void'
         return '%s %s(%s)' % (self.ct(f.ret), name or self.gn(f.name), ps)
 
+    def rpo_view(self, f):
+        """the function with its blocks in reverse post-order of the CFG (ties broken towards the original order): every retreating
+        edge is then a genuine loop back edge.  In LLVM's own block order a block may be laid out before its predecessors without
+        being a loop header; the backward goto emitted for such an edge is a 'loop' of its own for CBMC, whose unwinding counter
+        interferes with the enclosing loop's (spurious unwinding-assertion failures, repeated re-execution)."""
+        blocks = f.blocks
+        if len(blocks) < 3: return f
+        idx = {b.name: i for i, b in enumerate(blocks)}
+        def succs(b):
+            t = b.instrs[-1]
+            if t.op == 'br': return [t.x['dest']]
+            if t.op == 'condbr': return [t.x['t'], t.x['f']]
+            if t.op == 'switch': return [t.x['default']] + [lb for (_, lb) in t.x['cases']]
+            if t.op == 'invoke': return [t.x['normal'], t.x['unwind']]
+            return []
+        seen = set(); post = []
+        stack = [(blocks[0].name, None)]
+        while stack:
+            n, it = stack.pop()
+            if it is None:
+                if n in seen: continue
+                seen.add(n)
+                ss = sorted(set(succs(blocks[idx[n]])), key=lambda x: -idx[x])      # higher original index first -> ends up later
+                it = iter(ss)
+            adv = False
+            for s_ in it:
+                if s_ not in seen:
+                    stack.append((n, it)); stack.append((s_, None)); adv = True; break
+            if not adv: post.append(n)
+        order = [blocks[idx[n]] for n in reversed(post)] + [b for b in blocks if b.name not in seen]
+        if [b.name for b in order] == [b.name for b in blocks]: return f
+        import copy
+        g = copy.copy(f); g.blocks = order
+        return g
+
     def emit_function(self, f):
         out = []
         env = {}
         used = set()
+        if os.environ.get('VERIF_RPO', '1') != '0':
+            f = self.rpo_view(f)
         def local(n):
             if n in env: return env[n]
             s = 'v_' + san(n)
